@@ -26,7 +26,12 @@ RULE = ('correlations: the C05 class grid on ThermochemRawData / '
         'points and knots. Non-trivial = an object probed both outside and '
         'inside its reported range; distinct by object data.'
         ' Argument forms for T: float; array [inside, outside]; one-element '
-        'array; 0-d array; numpy scalar; int. ')
+        'array; 0-d array; numpy scalar; int. '
+        ' '
+        'Rounds 17-19: every copy / pickle of an object held to the'
+        ' property itself; one temperature array object moved outside the'
+        ' range in place between calls; shared objects probed from four'
+        ' threads.')
 ASSUMPTIONS = [
     'ranges are positive; correlations without Cp data have T_ref inside '
     'their range; NaN is not a temperature',
